@@ -11,12 +11,14 @@ SUBTLE = [0, False, 0.0, -0.0, 1, True, 1.0, Fraction(1), Decimal(1), 2, NAN, fl
 
 
 def subtle(rng):
-    c = rng.randrange(len(SUBTLE) + 9)
+    c = rng.randrange(len(SUBTLE) + 13)
     if c < len(SUBTLE):
         return SUBTLE[c]
-    # containers are built fresh every time: equal by value, distinct by identity
+    # containers are built fresh every time: equal by value, distinct by identity (sets: equal sets need not iterate in
+    # the same order - 0, 8 and 16 fall into the same slot of a small table)
     return [lambda: [], lambda: [1], lambda: [1.0], lambda: (1,), lambda: [1, [2]], lambda: {'k': 1}, lambda: {'k': [1]},
-            lambda: {'k': 1.0}, lambda: {}][c - len(SUBTLE)]()
+            lambda: {'k': 1.0}, lambda: {}, lambda: set([0, 8]), lambda: set([8, 0]), lambda: set([16, 8, 'a']),
+            lambda: set()][c - len(SUBTLE)]()
 
 
 ATOMS = [None, 0, 1, 1.0, True, False, 'x', '', NAN, b'x']
@@ -94,6 +96,16 @@ def vary(old, rng):
         elif new:
             new.reverse()
         return type(old)(new)
+    if type(old) is set:
+        c = rng.randrange(4)
+        items = list(old)
+        if c == 0:
+            return set(reversed(items))          # the same elements inserted in the opposite order: an equal set
+        if c == 1:
+            return set(items[1:]) | {8 if 8 not in old else 24}
+        if c == 2:
+            return set(items) | {0 if 0 not in old else 32}
+        return list(items)
     if old is None:
         return rng.choice([None, 0, False, '', [], {}])
     if isinstance(old, bool):
